@@ -64,7 +64,13 @@ def case(rng):
             if rng.random() < 0.5:
                 p = {"status": 200, "ct": rng.choice(["text/event-stream", "text/event-stream; charset=utf-8", "text/html"])}
             gets.append([u, p])
-    return {"url": url, "post": probe(rng), "gets": gets, "token": rng.choice([None, None, "tok", "Bearer t"])}
+    c = {"url": url, "post": probe(rng), "gets": gets, "token": rng.choice([None, None, "tok", "Bearer t"])}
+    if rng.random() < 0.04:
+        c["client_fails"] = True   # the HTTP client cannot even be created
+    if rng.random() < 0.25:
+        # URLs for try_sse_with_fallback: text of the guidance tests inside an invalid URL ends up in the exception text
+        c["sse_try"] = rng.choice(["ftp://h/404", "h.test/Not Found", "ws://h/405/x", "ftp://h/method not allowed", "ftp://h/x", "", "http://h.test/404/"])
+    return c
 
 
 def directed():
@@ -76,6 +82,9 @@ def directed():
             c = candidates(url)
             gets = [] if which is None else [[[c[2], c[3], c[1]][which], {"status": 200, "ct": "text/event-stream"}]]
             out.append({"url": url, "post": post, "gets": gets, "token": None})
+    out.append({"url": "http://h.test/mcp", "post": {"status": 200, "ct": "application/json"}, "gets": [], "token": None, "client_fails": True})
+    for u in ("ftp://h/404", "ftp://h/METHOD NOT ALLOWED", "ftp://h/x", "http://h.test/sse/"):
+        out.append({"url": "http://h.test/mcp", "post": "exc", "gets": [], "token": None, "sse_try": u})
     for url in ("", "ftp://h/mcp", "h.test/mcp", "http://h.test/mcp/", "https://h.test", "http://h.test/MCP", "http://mcp.h.test/events"):
         out.append({"url": url, "post": {"status": 200, "ct": "application/json"}, "gets": [], "token": None})
     return out
@@ -135,7 +144,20 @@ async def _run(case):
             obs[name] = f(url, timeout=5.0).url
         except Exception as ex:  # noqa
             obs[name] = {"raises": type(ex).__name__}
-    with http_h._MockPatch(handler):
+    obs["factory"] = await factory_probe()
+    su = case.get("sse_try", url)
+    try:
+        from chuk_mcp.transports.sse.sse_client import try_sse_with_fallback
+        cm = await try_sse_with_fallback(su, timeout=5.0)
+        args = getattr(cm, "args", None) or ()
+        obs["try_sse"] = {"k": "client", "url": getattr(args[0], "url", None) if args else None}
+        if getattr(cm, "gen", None) is not None:
+            await cm.gen.aclose()
+    except Exception as ex:  # noqa
+        cause = ex.__cause__
+        obs["try_sse"] = {"k": "guidance" if cause is not None and type(ex) is Exception else "reraise", "url": None}
+        obs["try_sse_err"] = str(cause if (cause is not None and type(ex) is Exception) else ex)
+    with (FailingClient() if case.get("client_fails") else http_h._MockPatch(handler)):
         try:
             obs["detect"] = await detect_transport_type(url, case.get("token"), timeout=5.0)
         except Exception as ex:  # noqa
@@ -156,6 +178,69 @@ async def _run(case):
     return obs
 
 
+class FailingClient:
+    """`httpx.AsyncClient(...)` raises"""
+
+    def __enter__(self):
+        import httpx
+        self.orig = httpx.AsyncClient
+
+        def boom(*a, **k):
+            raise RuntimeError("scripted: no HTTP client")
+        httpx.AsyncClient = boom
+        return self
+
+    def __exit__(self, *exc):
+        import httpx
+        httpx.AsyncClient = self.orig
+        return False
+
+
+async def factory_probe():
+    """the transport factory and the not-started guards of the three Transport classes"""
+    import chuk_mcp.transports as T
+    from chuk_mcp.transports.stdio.parameters import StdioParameters
+    from chuk_mcp.transports.http.parameters import StreamableHTTPParameters
+    from chuk_mcp.transports.sse.parameters import SSEParameters
+    from chuk_mcp.transports.http.transport import StreamableHTTPTransport
+    params = {"stdio": StdioParameters(command="x", args=[]), "http": StreamableHTTPParameters(url="http://h.test/mcp"),
+              "sse": SSEParameters(url="http://h.test")}
+    out = {"available": list(T.get_available_transports()), "has": {"http": bool(T.HAS_HTTP), "sse": bool(T.HAS_SSE)}, "made": {}, "guards": {}}
+    for t in ("stdio", "http", "sse", "bogus", ""):
+        for fname in ("create_transport", "create_client"):
+            try:
+                v = getattr(T, fname)(t, params.get(t))
+                out["made"][f"{fname}:{t}"] = type(v).__name__ if fname == "create_transport" else getattr(getattr(v, "func", None), "__name__", type(v).__name__)
+                if fname == "create_client" and getattr(v, "gen", None) is not None:
+                    await v.gen.aclose()
+            except ValueError:
+                out["made"][f"{fname}:{t}"] = "ValueError"
+    for name, tr in (("stdio", T.StdioTransport(params["stdio"])), ("http", StreamableHTTPTransport(params["http"])), ("sse", T.SSETransport(params["sse"]))):
+        try:
+            await tr.get_streams()
+            g = "streams"
+        except RuntimeError:
+            g = "RuntimeError"
+        tr.set_protocol_version("2025-06-18")
+        out["guards"][name] = g
+    st = T.StdioTransport(params["stdio"])
+    out["guards"]["stdio_exit_unstarted"] = await st.__aexit__(None, None, None)
+    return out
+
+
+def factory_expected(obs):
+    """what the factory must do given which transports it declares available (model-free)"""
+    cls = {"stdio": "StdioTransport", "http": "StreamableHTTPTransport", "sse": "SSETransport"}
+    cm = {"stdio": "stdio_client", "http": "http_client", "sse": "sse_client"}
+    avail = ["stdio"] + [t for t in ("http", "sse") if obs["has"][t]]
+    made = {}
+    for t in ("stdio", "http", "sse", "bogus", ""):
+        made[f"create_transport:{t}"] = cls[t] if t in avail else "ValueError"
+        made[f"create_client:{t}"] = cm[t] if t in avail else "ValueError"
+    return {"available": avail, "has": obs["has"], "made": made,
+            "guards": {"stdio": "RuntimeError", "http": "RuntimeError", "sse": "RuntimeError", "stdio_exit_unstarted": False}}
+
+
 def run_case(case):
     try:
         return vloop.run(_run, case)
@@ -174,17 +259,19 @@ def wire_table(case):
     return table
 
 
-def model_line(case):
+def model_line(case, obs=None):
     """what the network answers, as the model's parameters.  The model derives raw URL strings; on the
     wire they appear as httpx normalises them and a URL httpx refuses makes the probe raise, so the
     model is given that mapping (`norm`) for every URL a probe might go to and the answers keyed by wire URL."""
-    if any(ord(ch) > 127 for ch in case["url"]):
+    if any(ord(ch) > 127 for ch in case["url"] + case.get("sse_try", "")) or (obs or {}).get("harness_error"):
         return None
 
     def P(p):
         return "exc" if p == "exc" else {"status": p["status"], "ct": p.get("ct") or ""}
     raws = candidates(case["url"]) + [u for u, _ in case["gets"]]
-    return {"m": "detect", "url": case["url"], "post": P(case["post"]) if norm(case["url"]) is not None else "exc",
+    return {"m": "detect", "url": case["url"], "client_ok": not case.get("client_fails"),
+            "sse_try_url": case.get("sse_try", case["url"]), "err_text": (obs or {}).get("try_sse_err", ""),
+            "post": P(case["post"]) if (norm(case["url"]) is not None and not case.get("client_fails")) else "exc",
             "gets": [[n, P(p)] for n, p in wire_table(case).items()], "norm": [[u, norm(u)] for u in dict.fromkeys(raws)]}
 
 
@@ -192,9 +279,12 @@ def expected(case, m):
     """the model's answer in the observation's vocabulary"""
     posted = [["POST", norm(case["url"])]] if norm(case["url"]) is not None else []
     gets = [["GET", norm(u)] for u in m["probe_urls"][: m["gets"]] if norm(u) is not None]
+    if case.get("client_fails"):
+        posted, gets = [], []
     out = {"streamable": m["streamable"], "sse_url": m["sse_url"], "detect": m["detect"], "detect_requests": posted + gets,
            "fallback": {"k": m["fallback"]["k"], "url": m["fallback"]["url"]},
-           "fallback_requests": (posted + gets) if m["probed"] else []}
+           "fallback_requests": (posted + gets) if m["probed"] else [],
+           "try_sse": {"k": m["try_sse"]["k"], "url": m["try_sse"]["url"]}}
     return out
 
 
@@ -202,4 +292,4 @@ def shape(obs):
     return {"streamable": obs["streamable"], "sse_url": obs["sse_url"], "detect": obs["detect"],
             "detect_requests": [r[:2] for r in obs["detect_requests"]],
             "fallback": {"k": obs["fallback"]["k"], "url": obs["fallback"]["url"]},
-            "fallback_requests": [r[:2] for r in obs["fallback_requests"]]}
+            "fallback_requests": [r[:2] for r in obs["fallback_requests"]], "try_sse": obs["try_sse"]}
